@@ -92,6 +92,8 @@ func (s *Solver) Check(c *Ctx, asserts []*Term, wantModel bool, timeout time.Dur
 	}
 	var sb strings.Builder
 	if !s.inited {
+		// the process may still hold the definitions of a one-shot fallback query
+		sb.WriteString("(reset)\n")
 		ms := int(timeout / time.Millisecond)
 		if ms > incrementalLimitMs {
 			ms = incrementalLimitMs
